@@ -220,6 +220,7 @@ def _run(ctx):
         "Serializer over a vector starts from an empty vector; appendPOD/fetchPOD object representation is that of a little-endian host",
         "CRC functions are checked with their default initial value (the published algorithms)",
         "delimiter strings for hex contain no hex digit",
+        "in-place calls (input = output) only for AES cipher/invcipher; the other codecs' contracts do not allow overlapping buffers",
     ]
     ctx.uncovered = [
         "reads outside the input are observed by ASan/UBSan (fault observers) and by the ghost read sets of the B64Impl/ScalImpl models, "
